@@ -165,6 +165,17 @@ def run_check(check, tier, seed, replay=None, max_cases=None):
     except translate.Untranslatable as e:
         tr_info = {"error": str(e)}
         tr_problems.append(str(e))
+    refused = tr_info.get("_refused", {}) if isinstance(tr_info, dict) else {}
+    if refused:
+        # a refusal breaks the tie only of the properties whose Lean modules import the refused generated file
+        deps = translate.generated_deps(module)
+        for mod in check.extra_build:
+            deps |= translate.generated_deps(mod)
+        for target, msg in sorted(refused.items()):
+            if target.startswith("?") or target in deps:
+                tr_problems.append(msg)
+            else:
+                log(f"[{pid}] note: lifter refusal outside this property's imports ({target}): {msg[:160]}")
     log(f"[{pid}] translator: {tr_info}")
 
     # 2. build + audit -------------------------------------------------------------------
